@@ -939,7 +939,7 @@ def eval_term(t, env_of):
     return None
 
 
-def explore_under(fn, env_of, limit=4000):
+def explore_under(fn, env_of, limit=4000, avoid=()):
     """(return blocks reached, blocks visited) by abstract execution from the entry: values of locals are tracked *along the
     path* (constants, plain copies, and whatever `eval_term` decides for a right-hand side or a call result under the
     environment), every switch whose discriminant is thereby decided takes only the decided edge, an undecided switch forks.
@@ -953,6 +953,8 @@ def explore_under(fn, env_of, limit=4000):
     def val_of(op, st):
         if not isinstance(op, dict):
             return None
+        if "l" in op and op.get("p") == ["*"] and op["l"] in st:
+            return st[op["l"]]
         if op.get("k") == "const":
             v = op.get("v")
             return v if isinstance(v, (bool, int)) else None
@@ -963,7 +965,7 @@ def explore_under(fn, env_of, limit=4000):
     while stack and n < limit:
         n += 1
         b, st = stack.pop()
-        if fn.is_cleanup(b):
+        if fn.is_cleanup(b) or b in avoid:
             continue
         key = (b, tuple(sorted((k, repr(v)) for k, v in st.items())))
         if key in seen_states:
@@ -980,6 +982,12 @@ def explore_under(fn, env_of, limit=4000):
                 v = val_of(rv["ops"][0], st)
             else:
                 v = eval_term(rvalue_origin(fn, rv, 0, frozenset(), 40), env_of)
+                if v is None and rv["k"] == "discr" and "l" in rv.get("place", {}) and not rv["place"].get("p") and st.get(rv["place"]["l"]) in ("Some", "None"):
+                    for vv in rv.get("variants", []):
+                        if vv["name"] == st[rv["place"]["l"]]:
+                            v = vv["val"]
+                if v is None and rv["k"] == "ref" and "l" in rv.get("place", {}) and not rv["place"].get("p") and rv["place"]["l"] in st:
+                    v = st[rv["place"]["l"]]        # a reference to a tracked value reads as the value
                 if v is None and rv["k"] == "un" and rv.get("op") == "Not" and rv.get("ops"):
                     x = val_of(rv["ops"][0], st)
                     v = (not x) if isinstance(x, bool) else None
@@ -993,6 +1001,16 @@ def explore_under(fn, env_of, limit=4000):
             continue
         if t["k"] == "call":
             v = eval_term(call_origin(fn, t, 0, frozenset(), 40), env_of)
+            if v is None:
+                # std semantics on values tracked along this path
+                fnm = ((t["func"].get("fn") or {}).get("path") or "").split("::")[-1]
+                av = [val_of(a_, st) for a_ in t.get("args", [])]
+                if fnm in ("then", "then_some") and av and isinstance(av[0], bool):
+                    v = "Some" if av[0] else "None"
+                elif fnm in ("is_some", "is_none") and av and av[0] in ("Some", "None"):
+                    v = (av[0] == "Some") == (fnm == "is_some")
+                elif fnm == "not" and av and isinstance(av[0], bool):
+                    v = not av[0]
             if v is None:
                 st.pop(t["dest"]["l"], None)
             else:
